@@ -3,7 +3,13 @@
 output directory <out>/m<k>/ to /verif/seeded/<prop>-m<k>/ (patch.diff, demo.diff, demo_cmd.txt, meta.json with the
 confirmation record merged in). Unconfirmed ones are listed and skipped."""
 import json, os, shutil, sys
-for out in sys.argv[1:]:
+# an optional first argument --tag=<t> names the kept directories <prop>-<t><k> (a second wave must not clobber the first)
+tag = ''
+args = sys.argv[1:]
+if args and args[0].startswith('--tag='):
+    tag = args[0][6:]
+    args = args[1:]
+for out in args:
     out = out.rstrip('/')
     prop = os.path.basename(out)
     for k in sorted(os.listdir(out)):
@@ -17,7 +23,7 @@ for out in sys.argv[1:]:
         ok = c.get('applies') and c.get('builds') and c.get('tests_pass') and c.get('demo_passes_without') is True and c.get('demo_fails_with') is True
         if not ok:
             print(f'{prop}-{k}: NOT kept: {c}'); continue
-        dst = f'/verif/seeded/{prop}-{k}'
+        dst = f'/verif/seeded/{prop}-{tag}{k}'
         os.makedirs(dst, exist_ok=True)
         for f in ('patch.diff', 'demo.diff', 'demo_cmd.txt'):
             shutil.copy(os.path.join(d, f), os.path.join(dst, f))
@@ -30,4 +36,4 @@ for out in sys.argv[1:]:
             'how': 'tools/confirm_seeded.sh in a scratch worktree of /repo HEAD (outside /repo and /verif): demo.diff alone -> demonstration passes; patch.diff -> workspace builds and the whole unedited suite passes with the verification cfg off; patch.diff + demo.diff -> demonstration fails',
             **c}
         json.dump(meta, open(os.path.join(dst, 'meta.json'), 'w'), indent=1, ensure_ascii=False)
-        print(f'{prop}-{k}: kept -> {dst}')
+        print(f'{prop}-{tag}{k}: kept -> {dst}')
